@@ -165,8 +165,10 @@ def _prune(keep):
     except FileNotFoundError:
         return
     ents.sort(key=lambda p: os.path.getmtime(p), reverse=True)
-    for p in ents[3:]:
-        if p != keep:
+    now = time.time()
+    for p in ents[6:]:
+        # never remove a build another (concurrent) check may still be using
+        if p != keep and now - os.path.getmtime(p) > 1800:
             shutil.rmtree(p, ignore_errors=True)
 
 
